@@ -58,6 +58,19 @@ SamplesOK == Live =>
             /\ Cardinality(mine) = n * Len(exp)
             /\ \A k \in 1..Len(exp) :
                  Cardinality({j \in mine : R.samples[j].step = StepName(k, Len(exp)) /\ Matches(R.samples[j], exp[k])}) = n
+\* var/header modifiers, enumerated: one scenario per (a, b) of SubstrCases(value length) plus a few chains of the
+\* other modifiers; step b echoes the captured value to the target.  The whole enumerated space was exercised, every
+\* capture produced SOME value (the run went on), and where the semantics are pinned it is the expected substring.
+IsSub(c) == c.kind = "substr"
+SubstrOK == (Live /\ R.kind = "substr") =>
+    /\ {<<R.cases[j].a, R.cases[j].b, R.cases[j].hasb>> : j \in {k \in 1..Len(R.cases) : IsSub(R.cases[k])}} = SubstrCases(R.vlen)
+    /\ \A j \in 1..Len(R.cases) :
+         LET c == R.cases[j] IN
+         /\ c.seen
+         /\ (IsSub(c) /\ R.vlen > 0 /\ Pinned(R.vlen, c.a, c.b, c.hasb)) =>
+               LET e == SubstrExpected(R.vlen, c.a, c.b, c.hasb)
+               IN c.len = e.len /\ (e.len > 0 => c.start = e.start)
+
 \* and nothing else
 NoStray == Live => \A j \in 1..Len(R.samples) : R.samples[j].letter \in Letters
 \* the run is one the alphabet knows
